@@ -19,11 +19,11 @@ def register(PROPS):
         'rule': 'case = one pair of first two events; everything below it is explored exhaustively to the depth bound with a visited table per case; '
                 'states/transitions/traces are summed over cases (a state reached under two different first pairs is counted twice); non-trivial = '
                 'the subtree holds >= 2 distinct states',
-        'bound': {'quick': 'depth 5 at T0 = 2030-01-01 (drift run depth 4; a further run at T0 = 2028-03-01, a leap-year March, depth 4; at T0 = 2037-02-05T06:28:10Z, six seconds before the seconds since 1901 pass 2^32, depth 4; at T0 = 2040-03-01 depth 3); narrow alphabet (one UID, the two- and three-occurrence schedules, ADD/replace, CANCEL, on-time TICK, EXIT) depth 12; the same plus a second UID with six occurrences and MAX-SIMUL 1 (starts with the no-run flag happen legitimately) depth 8; three UIDs whose hashes force the task table to grow by more than double, one schedule each, depth 6; linear histories of 65535, 65536, 65537 and 200 occurrences a minute apart followed to the end (one real start per occurrence, the task gone afterwards)', 'thorough': 'depth 7 (drift run depth 6, leap-March and 2037 runs depth 5, 2040 run depth 4), narrow alphabet depth 20'},
+        'bound': {'quick': 'depth 5 at T0 = 2030-01-01 (drift run depth 4; a further run at T0 = 2028-03-01, a leap-year March, depth 4; at T0 = 2037-02-05T06:28:10Z, six seconds before the seconds since 1901 pass 2^32, depth 4; at T0 = 2040-03-01 depth 3); narrow alphabet (one UID, the two- and three-occurrence schedules, ADD/replace, CANCEL, on-time TICK, EXIT) depth 12; the same plus a second UID with six occurrences and MAX-SIMUL 1 (starts with the no-run flag happen legitimately) depth 8; three UIDs whose hashes force the task table to grow by more than double, one schedule each, depth 6; linear histories of 65535, 65536, 65537 and 200 occurrences a minute apart followed to the end (one real start per occurrence, the task gone afterwards)', 'thorough': 'depth 6 (depth 7 ran clean before the alphabet grew by the exception template and the combined tick-and-exit event; drift run depth 5, leap-March and 2037 runs depth 5, 2040 run depth 4), narrow alphabet depth 20'},
         'counter_map': {'states': 'states', 'transitions': 'transitions', 'traces_validated_against_impl': 'traces'},
         'drivers': [
-            D('e2_explore', ['prop=C04', 'depth=5', '--case-timeout', '60'], ['prop=C04', 'depth=7', '--case-timeout', '300'], label='depth'),
-            D('e2_explore', ['prop=C04', 'depth=4', 'drift=1.5', '--case-timeout', '60'], ['prop=C04', 'depth=6', 'drift=1.5', '--case-timeout', '300'], label='drift'),
+            D('e2_explore', ['prop=C04', 'depth=5', '--case-timeout', '60'], ['prop=C04', 'depth=6', '--case-timeout', '300'], label='depth'),
+            D('e2_explore', ['prop=C04', 'depth=4', 'drift=1.5', '--case-timeout', '60'], ['prop=C04', 'depth=5', 'drift=1.5', '--case-timeout', '300'], label='drift'),
             D('e2_explore', ['prop=C04', 'depth=4', 't0=1835481600', '--case-timeout', '60'], ['prop=C04', 'depth=5', 't0=1835481600', '--case-timeout', '300'], label='leap-march'),
             D('e2_explore', ['prop=C04', 'depth=3', '--case-timeout', '60'], ['prop=C04', 'depth=4', '--case-timeout', '120'], label='asan', variant='asan'),
             D('e2_explore', ['prop=C04', 'depth=4', 't0=2117428090', '--case-timeout', '60'], ['prop=C04', 'depth=5', 't0=2117428090', '--case-timeout', '300'], label='2^32-s-since-1901'),
